@@ -184,7 +184,7 @@ func c18Run(c *mc.Ctx) {
 	depth, dev := 3, 2
 	subsets := []int{0, 7, 1, 4}
 	if c.Thorough() {
-		depth, dev = 4, 3
+		depth, dev = 4, 2
 		subsets = []int{0, 1, 2, 3, 4, 5, 6, 7}
 	}
 	c.Note("history_depth", fmt.Sprint(depth))
